@@ -16,7 +16,7 @@
 (* prints <<"VIOL", clause, line, tag>>; tag names a known-finding         *)
 (* signature when the failing situation matches one exactly.               *)
 (***************************************************************************)
-EXTENDS Integers, Sequences, FiniteSets, TLC, Json, IOUtils, TableMembers, HandJson
+EXTENDS Integers, Sequences, FiniteSets, TLC, Json, IOUtils, TableMembers, TablePositions, HandJson
 
 VARIABLES l, g
 Trace == ndJsonDeserialize(IOEnv.TRACE)
@@ -179,6 +179,13 @@ C03_reserveAccepted(t) ==
 \* an update that removes and adds in one call and then fails has already removed (recorded finding)
 KF_UpdatePartial(t) == t.ev = "ret:UpdateTablePlayers" /\ t.res # "ok" /\ Len(t.a.ids) > 0 /\ Len(t.a.joins) > 0
 
+\* conformance of the opened snapshot with the transcription of calcGamePlayerIndexes / updatePlayerPositions (DRIFT only)
+PositionsConform(t) ==
+  (IsOpenSnap(t) /\ t.st.rule # "short_deck" /\ C03_bijection(t.st) /\ C03_smAgree(t.st)) =>
+    LET st == t.st  m == SmOf(st)  gseats == GameSeats(m)  lab == CodeLabels(m) IN
+    /\ [i \in 1..Len(st.gpi) |-> st.players[st.gpi[i] + 1].seat] = gseats
+    /\ \A i \in 1..Len(st.players) : Range(st.players[i].pos) = lab[st.players[i].seat]
+
 \* conformance of membership calls with the tight sequential model TableMembers (a mismatch is DRIFT, not a violation)
 ToM(st) == [n |-> st.nseat,
             players |-> [i \in 1..Len(st.players) |-> [id |-> st.players[i].id, seat |-> st.players[i].seat, bank |-> st.players[i].bank, in |-> st.players[i].in]],
@@ -257,7 +264,7 @@ C05_dealtIn(t) ==
     /\ \A i \in 1..Len(st.players) :
          st.players[i].part <=> (st.players[i].in /\ st.players[i].bank > 0 /\ ~SmBtw(st, st.players[i].id))
     /\ Cardinality(PartIds(st)) >= 2
-C05_continuity(t, gg) ==
+T_C05_continuity(t, gg) ==
   IsOpenSnap(t) =>
     \A id \in gg.lastParts :
       (/\ id \in Ids(t.st) /\ id \notin gg.leftSince /\ id \in gg.afterIds /\ gg.afterBank[id] > 0
@@ -266,31 +273,17 @@ C05_maxMissed(t, gg) ==
   IsOpenSnap(t) =>
     \A id \in Ids(t.st) :
       (~P(t.st, id).part /\ P(t.st, id).in /\ P(t.st, id).bank > 0) => Fn(gg.missed, gg.missedIds, id, 0) + 1 <= 3
-StrictlyBetween(n, d, b, s) == \E i \in 1..(n - 1) : (d + i) % n = s /\ \A j \in 1..i : (d + j) % n # b
-C05_newcomerFlag(t) ==
+T_C05_newcomerFlag(t) ==
   (t.ev = "ret:PlayerReserve" /\ t.res = "ok" /\ Len(t.pre) = 1 /\ t.a.id \notin Ids(t.pre[1]) /\ t.a.id \in Ids(t.st)) =>
     LET pre == t.pre[1]  s == P(t.st, t.a.id).seat IN
     SmBtw(t.st, t.a.id) = (pre.sm.inited /\ pre.rule # "short_deck" /\ pre.sm.dealer # pre.sm.bb
                            /\ StrictlyBetween(pre.nseat, pre.sm.dealer, pre.sm.bb, s))
 
 \* ---------------------------------------------------------------- C06 (default rule)
-Standard(n) ==
-  CASE n = 10 -> <<"dealer", "sb", "bb", "ug", "ug2", "ug3", "mp", "mp2", "hj", "co">>
-    [] n = 9 -> <<"dealer", "sb", "bb", "ug", "ug2", "mp", "mp2", "hj", "co">>
-    [] n = 8 -> <<"dealer", "sb", "bb", "ug", "ug2", "mp", "hj", "co">>
-    [] n = 7 -> <<"dealer", "sb", "bb", "ug", "mp", "hj", "co">>
-    [] n = 6 -> <<"dealer", "sb", "bb", "ug", "hj", "co">>
-    [] n = 5 -> <<"dealer", "sb", "bb", "ug", "co">>
-    [] n = 4 -> <<"dealer", "sb", "bb", "ug">>
-    [] n = 3 -> <<"dealer", "sb", "bb">>
-    [] OTHER -> <<>>
-\* label sets in slot order starting at the big-blind slot
-SlotLabels(n) == IF n = 2 THEN <<{"bb"}, {"dealer", "sb"}>>
-                 ELSE [i \in 1..n |-> {Standard(n)[((i + 1) % n) + 1]}]
 PartAtSeat(st, s) == st.seatmap[s + 1] >= 0 /\ st.players[st.seatmap[s + 1] + 1].part
-SlotSeats(st) == {s \in 0..(st.nseat - 1) : s \in {st.dealer, st.sb, st.bb} \/ PartAtSeat(st, s)}
+TSlotSeats(st) == {s \in 0..(st.nseat - 1) : s \in {st.dealer, st.sb, st.bb} \/ PartAtSeat(st, s)}
 \* k-th slot seat clockwise starting at the bb seat (k = 1 is the bb seat itself)
-SlotSeq(st) == LET S == SlotSeats(st)
+SlotSeq(st) == LET S == TSlotSeats(st)
                    ord(s) == (s - st.bb + st.nseat) % st.nseat
                IN SeqByRank(S, ord)
 C06_labels(t) ==
@@ -502,6 +495,7 @@ CheckLine(k, gg) ==
   /\ t.ev \notin MgrLines /\ t.ev \notin {"actorview", "actorsdone"}
   /\ Clause("C17_bystandersUntouched", C17_bystandersUntouched(t), "", k)
   /\ (midOp \/ t.a.note = "background" \/ MemberConforms(t) \/ PrintT(<<"DRIFT", k, t.ev, t.res>>))
+  /\ (PositionsConform(t) \/ PrintT(<<"DRIFT", k, "positions", "open">>))
   /\ Clause("C18_botTablePlaysOut", t.ev # "botstall", "", k)
   /\ Clause("C03_noPanic", t.res # "panic" /\ st.status # "projection-panic" /\ t.ev # "crash", kfmid, k)
   /\ ok =>
@@ -517,9 +511,9 @@ CheckLine(k, gg) ==
      /\ Clause("C02_stack", C02_stack(t, gg), kfmid, k)
      /\ Clause("C02_actionBy", C02_actionBy(t, gg), kfmid, k)
      /\ Clause("C05_dealtIn", C05_dealtIn(t), "", k)
-     /\ Clause("C05_continuity", C05_continuity(t, gg), "", k)
+     /\ Clause("C05_continuity", T_C05_continuity(t, gg), "", k)
      /\ Clause("C05_maxMissed", C05_maxMissed(t, gg), "", k)
-     /\ Clause("C05_newcomerFlag", C05_newcomerFlag(t), "", k)
+     /\ Clause("C05_newcomerFlag", T_C05_newcomerFlag(t), "", k)
      /\ Clause("C06_labels", C06_labels(t), IF KF_DealerOnBBTable(st) THEN "KF-C04-dealer-on-bb"
                                             ELSE IF KF_DealtInBetweenDealerAndSB(st) THEN "KF-C06-active-between-dealer-and-sb" ELSE "", k)
      /\ Clause("C06_engineLabels", C06_engineLabels(t, gg),
